@@ -1160,7 +1160,55 @@ func checkComparableGuard(w *World) (bool, string) {
 // range loop over params in which isComparable(params[i]) is called and whose
 // not-comparable edge reaches only non-nil error returns.
 func guardedByComparableLoop(w *World, cmp *ssa.BinOp, params ssa.Value) bool {
-	fn := cmp.Parent()
+	if comparableLoopIn(w, cmp.Parent(), params, cmp.Block()) {
+		return true
+	}
+	// the same check extracted into a validation helper: err := check(…, params); if err != nil { return … } — the
+	// comparison is reached only when the helper answered nil, and the helper answers nil only after its own loop
+	// found every element comparable
+	for _, f := range factsAt(cmp.Block()) {
+		x, isNil, ok := factIsNil(f)
+		if !ok || !isNil {
+			continue
+		}
+		call, okc := x.(*ssa.Call)
+		if !okc {
+			continue
+		}
+		h := call.Call.StaticCallee()
+		if h == nil || !w.funcSet[h] || h.Signature.Results().Len() != 1 || !isErrorType(h.Signature.Results().At(0).Type()) {
+			continue
+		}
+		pi := -1
+		for i, a := range call.Call.Args {
+			if a == params {
+				pi = i
+			}
+		}
+		if pi < 0 {
+			continue
+		}
+		okAll := false
+		for _, ret := range allReturns(h) {
+			if isNilConst(ret.Results[0]) {
+				if comparableLoopIn(w, h, h.Params[pi], ret.Block()) {
+					okAll = true
+				} else {
+					okAll = false
+					break
+				}
+			}
+		}
+		if okAll {
+			return true
+		}
+	}
+	return false
+}
+
+// comparableLoopIn: in fn, a complete loop over slice `params` that leaves with an error unless isComparable(element)
+// dominates block `at`.
+func comparableLoopIn(w *World, fn *ssa.Function, params ssa.Value, at *ssa.BasicBlock) bool {
 	guard := w.Fn("isComparable")
 	found := false
 	EachInstr(fn, func(in ssa.Instruction) {
@@ -1173,7 +1221,7 @@ func guardedByComparableLoop(w *World, cmp *ssa.BinOp, params ssa.Value) bool {
 			return
 		}
 		// the loop's exit edge (header false edge) must dominate the comparison
-		if !edgeDominates(hdr, 1, cmp.Block()) {
+		if !edgeDominates(hdr, 1, at) {
 			return
 		}
 		// the call's result must be branched on in its own block, with the false
